@@ -124,7 +124,7 @@ impl Property for C08 {
         "C08"
     }
     fn cases(&self, tier: Tier) -> u32 {
-        tier.pick(3000, 40_000)
+        tier.pick(4_000, 40_000)
     }
     fn strategy(&self, tier: Tier) -> BoxedStrategy<Self::Abs> {
         let n = tier.pick(24, 40);
